@@ -19,14 +19,17 @@
 (*   [k |-> "asg", w, r]          w = f(r)        (r: set of variables read)  *)
 (*   [k |-> "aug", w]             w += 1                                      *)
 (*   [k |-> "use", r]             print(r)                                    *)
-(*   [k |-> "break"], [k |-> "continue"]                                      *)
-(*   [k |-> "if",    r, body, orelse]      test reads r, goes either way      *)
+(*   [k |-> "break"], [k |-> "continue"], [k |-> "return"]                    *)
+(*   [k |-> "if",    r, ww, body, orelse]  test reads r, goes either way; ww  *)
+(*                                        = "" or a variable the test binds   *)
+(*                                        itself:  if (ww := cond(r)):        *)
 (*   [k |-> "while", r, body, orelse]      any number of iterations (0 too)   *)
 (*   [k |-> "for",   w, r, body, orelse]   iterable reads r once, every       *)
 (*                                        iteration binds w                  *)
 (*   [k |-> "with",  w, r, body]           with f(r) as w:                    *)
-(* An execution state is [st, w, n]: st = "run" | "brk" | "cnt" (a break /    *)
-(* continue looking for its loop), w = names bound so far BY THIS CODE, n =   *)
+(* An execution state is [st, w, n]: st = "run" | "brk" | "cnt" | "ret" (a    *)
+(* break / continue looking for its loop, a return leaving the code), w =     *)
+(* names bound so far BY THIS CODE, n =                                       *)
 (* names read while not in w.  Exec(block, S) is the collecting semantics:    *)
 (* the set of states in which block can end when started in a state of S.     *)
 (* Both w and n only grow along an execution, so a loop is unrolled          *)
@@ -38,7 +41,8 @@ EXTENDS Integers, Sequences, FiniteSets, TLC, SequencesExt, Json
 
 CONSTANTS Vars,        \* e.g. {"a", "b"}
           Reads,       \* the sets of variables a statement may read: subset of SUBSET Vars
-          LeafKinds,   \* subset of {"asg", "aug", "use", "break", "continue"}
+          LeafKinds,   \* subset of {"asg", "aug", "use", "break", "continue", "return"}
+          TestWrites,  \* what an if / while test may bind by := : subset of Vars \cup {""}
           Compounds,   \* subset of {"if", "while", "for", "with"}
           Depth,       \* 1: compound statements with leaf bodies; 2: one compound nested in another
           PairBodies,  \* BOOLEAN: bodies of two leaves as well as of one
@@ -51,14 +55,15 @@ Leaves ==
     \cup (IF "use" \in LeafKinds THEN {[k |-> "use", r |-> {v}] : v \in Vars} ELSE {})
     \cup (IF "break" \in LeafKinds THEN {[k |-> "break"]} ELSE {})
     \cup (IF "continue" \in LeafKinds THEN {[k |-> "continue"]} ELSE {})
-Plain == {l \in Leaves : l.k \notin {"break", "continue"}}
+    \cup (IF "return" \in LeafKinds THEN {[k |-> "return"]} ELSE {})
+Plain == {l \in Leaves : l.k \notin {"break", "continue", "return"}}
 
 Bodies0 == {<<l>> : l \in Leaves} \cup (IF PairBodies THEN {<<l, m>> : l \in Plain, m \in Leaves} ELSE {})
 OrElse0 == {<<>>} \cup {<<l>> : l \in Plain}
 
 Comp(bodies, orelses) ==
-    (IF "if" \in Compounds THEN {[k |-> "if", r |-> r, body |-> b, orelse |-> o] : r \in Reads, b \in bodies, o \in orelses} ELSE {})
-    \cup (IF "while" \in Compounds THEN {[k |-> "while", r |-> r, body |-> b, orelse |-> o] : r \in Reads, b \in bodies, o \in orelses} ELSE {})
+    (IF "if" \in Compounds THEN {[k |-> "if", r |-> r, ww |-> ww, body |-> b, orelse |-> o] : r \in Reads, ww \in TestWrites, b \in bodies, o \in orelses} ELSE {})
+    \cup (IF "while" \in Compounds THEN {[k |-> "while", r |-> r, ww |-> ww, body |-> b, orelse |-> o] : r \in Reads, ww \in TestWrites, b \in bodies, o \in orelses} ELSE {})
     \cup (IF "for" \in Compounds THEN {[k |-> "for", w |-> w, r |-> r, body |-> b, orelse |-> o] : w \in Vars, r \in Reads, b \in bodies, o \in orelses} ELSE {})
     \cup (IF "with" \in Compounds THEN {[k |-> "with", w |-> w, r |-> r, body |-> b, orelse |-> <<>>] : w \in Vars, r \in Reads, b \in bodies} ELSE {})
 
@@ -85,6 +90,7 @@ WF(block, inloop) ==
     \A i \in 1..Len(block) :
         LET s == block[i] IN
         CASE s.k \in {"break", "continue"} -> inloop
+          [] s.k = "return" -> TRUE
           [] s.k = "if" -> WF(s.body, inloop) /\ WF(s.orelse, inloop)
           [] s.k = "with" -> WF(s.body, inloop)
           [] s.k \in {"while", "for"} -> WF(s.body, TRUE) /\ WF(s.orelse, inloop)
@@ -94,6 +100,8 @@ WF(block, inloop) ==
 St(st, w, n) == [st |-> st, w |-> w, n |-> n]
 Read(s, r) == St(s.st, s.w, s.n \cup (r \ s.w))
 Write(s, v) == St(s.st, s.w \cup {v}, s.n)
+\* evaluating the test of an if / while statement: its reads, then what it binds itself
+Test(s, stmt) == IF stmt.ww = "" THEN Read(s, stmt.r) ELSE Write(Read(s, stmt.r), stmt.ww)
 MaxIter == 2 * Cardinality(Vars) + 1
 
 RECURSIVE Exec(_, _), ExecStmt(_, _), Loop(_, _, _)
@@ -108,15 +116,16 @@ Exec(block, S) ==
 \* k more iterations of the loop `s` may start; T = states in which the test / the iterator is about to be asked
 \* result: the states in which the whole loop statement can end
 Loop(s, T, k) ==
-    LET tested == IF s.k = "while" THEN {Read(t, s.r) : t \in T} ELSE T
+    LET tested == IF s.k = "while" THEN {Test(t, s) : t \in T} ELSE T
         \* the loop ends normally: its else clause runs
         done == Exec(s.orelse, tested)
         entered == IF s.k = "for" THEN {Write(t, s.w) : t \in tested} ELSE tested
         body == Exec(s.body, entered)
         broken == {St("run", b.w, b.n) : b \in {x \in body : x.st = "brk"}}          \* break: leaves the loop, skips else
         again == {St("run", b.w, b.n) : b \in {x \in body : x.st \in {"run", "cnt"}}}
+        returned == {x \in body : x.st = "ret"}
     IN IF k = 0 THEN done
-       ELSE done \cup broken \cup Loop(s, again, k - 1)
+       ELSE done \cup broken \cup returned \cup Loop(s, again, k - 1)
 
 ExecStmt(s, st) ==
     CASE s.k = "asg" -> {Write(Read(st, s.r), s.w)}
@@ -124,7 +133,8 @@ ExecStmt(s, st) ==
       [] s.k = "use" -> {Read(st, s.r)}
       [] s.k = "break" -> {St("brk", st.w, st.n)}
       [] s.k = "continue" -> {St("cnt", st.w, st.n)}
-      [] s.k = "if" -> LET t == Read(st, s.r) IN Exec(s.body, {t}) \cup Exec(s.orelse, {t})
+      [] s.k = "return" -> {St("ret", st.w, st.n)}
+      [] s.k = "if" -> LET t == Test(st, s) IN Exec(s.body, {t}) \cup Exec(s.orelse, {t})
       [] s.k = "with" -> Exec(s.body, {Write(Read(st, s.r), s.w)})
       [] s.k = "while" -> Loop(s, {st}, MaxIter)
       [] s.k = "for" -> Loop(s, {Read(st, s.r)}, MaxIter)
@@ -149,8 +159,8 @@ Mentions(block) ==
            CASE s.k \in {"asg"} -> {s.w} \cup s.r
              [] s.k = "aug" -> {s.w}
              [] s.k = "use" -> s.r
-             [] s.k \in {"break", "continue"} -> {}
-             [] s.k \in {"if", "while"} -> s.r \cup Mentions(s.body) \cup Mentions(s.orelse)
+             [] s.k \in {"break", "continue", "return"} -> {}
+             [] s.k \in {"if", "while"} -> s.r \cup (IF s.ww = "" THEN {} ELSE {s.ww}) \cup Mentions(s.body) \cup Mentions(s.orelse)
              [] s.k \in {"for", "with"} -> {s.w} \cup s.r \cup Mentions(s.body) \cup Mentions(s.orelse)
            : i \in 1..Len(block)}
 \* sanity of the semantics itself
@@ -164,8 +174,8 @@ Enc(block) == [i \in 1..Len(block) |->
                  CASE s.k = "asg" -> [k |-> "asg", w |-> s.w, r |-> SetToSeq(s.r)]
                    [] s.k = "aug" -> [k |-> "aug", w |-> s.w]
                    [] s.k = "use" -> [k |-> "use", r |-> SetToSeq(s.r)]
-                   [] s.k \in {"break", "continue"} -> [k |-> s.k]
-                   [] s.k \in {"if", "while"} -> [k |-> s.k, r |-> SetToSeq(s.r), body |-> Enc(s.body), orelse |-> Enc(s.orelse)]
+                   [] s.k \in {"break", "continue", "return"} -> [k |-> s.k]
+                   [] s.k \in {"if", "while"} -> [k |-> s.k, r |-> SetToSeq(s.r), ww |-> s.ww, body |-> Enc(s.body), orelse |-> Enc(s.orelse)]
                    [] OTHER -> [k |-> s.k, w |-> s.w, r |-> SetToSeq(s.r), body |-> Enc(s.body), orelse |-> Enc(s.orelse)]]
 
 Dump == prog = <<>> \/ LET o == Outcomes(prog) IN
